@@ -380,7 +380,11 @@ def run(ctx):
                 elif not bad:
                     nontrivial.add(line)
             # bursts behind a held I/O thread: every datagram one data event on one session, without further traffic
-            bursts = ["B 200 1", "B 150 0", "B 65 1"] if not thorough else ["B 200 1", "B 150 0", "B 65 1", "B 1000 1", "B 500 0"] * 3
+            # (sizes well inside the listener's socket buffer: a datagram the kernel drops because the buffer is full was never
+            #  received; 1000 queued datagrams lost three quarters of them that way and raised a false alarm in the thorough tier)
+            # more than two read budgets of any plausible size below ~64 (an edge-triggered listener gets one more readiness
+            # report for the datagrams that arrived while its thread was held), the harness enlarges SO_RCVBUF to hold them
+            bursts = ["B 200 1", "B 150 0", "B 65 1"] if not thorough else ["B 200 1", "B 150 0", "B 65 1", "B 300 1", "B 250 0"] * 3
             bi, bm, _ = vlib.run_pair(ctx, impl_exe, model_exe, bursts, "c06b", timeout=600)
             for line, ri, rm in zip(bursts, bi, bm):
                 if ri != rm:
